@@ -3,6 +3,7 @@ package fsub
 import (
 	"fmt"
 	"math/rand/v2"
+	"os"
 	"strings"
 	"sync"
 	"testing"
@@ -772,7 +773,7 @@ func sortStrings(s []string) {
 func TestC27(t *testing.T) {
 	r := vf.Start(t, "C27", vf.Exploration)
 	defer r.Finish()
-	r.SetRule("script = a real FloodSub node V (subscribing alpha, beta or both) with a real honest neighbour W (subscribing alpha, beta, gamma: it would take anything V forwards) and a hostile stream on which the harness writes 5-12 publish packets of 1-3 crafted SignedMsgs (20 classes: honest, honest for a channel V does not subscribe, replay, tampered body, inner channel rewritten, foreign signature with claimed sender, wrong signing contexts, empty channel, bad/empty sender, damaged/missing signature, changed hash type ...; claimed senders include V and W themselves), optional chunked delivery (1-9 bytes per read), optional trailing garbage frame, interleaved with 0-4 honest API publishes by V and W. Every second script additionally carries 2-4 history-dependent forgery chains on the hostile stream (wire order = history): an accepted message (sender A; also the attacker's own authentic message or one for an unsubscribed channel), then optionally a message naming another sender X that is REJECTED (damaged after signing) or accepted, optionally a further message, then a forgery derived from that history: claims the last accepted / an earlier accepted sender but is signed with the key of the sender named immediately before / the attacker / any earlier named sender (with or without that signer's public key attached), or re-uses the signature of an earlier accepted message with changed data, changed inner channel, changed sender, or on another message of the same sender; optionally a second forgery; chains are split over packets in every way (one entry per packet, whole chain in one packet, PRNG cuts) while 2-6 API publishes of V and W flow on the other stream. Every script additionally carries 1-3 honestly SIGNED messages whose signed inner bytes are a non-canonical protobuf encoding written by a harness-side wire writer (14-entry round-robin: channel field twice with first subscribed / last unsubscribed, first unsubscribed / last subscribed, both subscribed, three occurrences, first or last occurrence empty; data field twice; timestamp split over several occurrences; unknown fields of every wire type; fields out of order; non-minimal varints in tags and length prefixes; a skipped bytes field containing the encoding of a channel field; PRNG mixtures), signed by the claimed sender under context+(channel a standard last-wins decode reports); ground truth = what the writer put last (self-tested against the protobuf codec). Non-trivial = at least one forged message was written and at least one authentic message from the hostile stream was handed to a V handler (so the stream was live and the reference signing context is right). Oracle = harness ground truth by construction: every handler callback and every copy V or W put on any wire must be a message that is authentic (signed by the claimed sender under context+channel), for the handler's / a subscribed channel, with the true sender reported (on the wire: claimed sender and inner channel of a forwarded copy equal those of the authentic message with that payload). Evaluated at exact quiescence.")
+	r.SetRule("script = a real FloodSub node V (subscribing alpha, beta or both) with a real honest neighbour W (subscribing alpha, beta, gamma: it would take anything V forwards) and a hostile stream on which the harness writes 5-12 publish packets of 1-3 crafted SignedMsgs (20 classes: honest, honest for a channel V does not subscribe, replay, tampered body, inner channel rewritten, foreign signature with claimed sender, wrong signing contexts, empty channel, bad/empty sender, damaged/missing signature, changed hash type ...; claimed senders include V and W themselves), optional chunked delivery (1-9 bytes per read), optional trailing garbage frame, interleaved with 0-4 honest API publishes by V and W. Every second script additionally carries 2-4 history-dependent forgery chains on the hostile stream (wire order = history): an accepted message (sender A; also the attacker's own authentic message or one for an unsubscribed channel), then optionally a message naming another sender X that is REJECTED (damaged after signing) or accepted, optionally a further message, then a forgery derived from that history: claims the last accepted / an earlier accepted sender but is signed with the key of the sender named immediately before / the attacker / any earlier named sender (with or without that signer's public key attached), or re-uses the signature of an earlier accepted message with changed data, changed inner channel, changed sender, or on another message of the same sender; optionally a second forgery; chains are split over packets in every way (one entry per packet, whole chain in one packet, PRNG cuts) while 2-6 API publishes of V and W flow on the other stream. Every script additionally carries 1-3 honestly SIGNED messages whose signed inner bytes are a non-canonical protobuf encoding written by a harness-side wire writer (14-entry round-robin: channel field twice with first subscribed / last unsubscribed, first unsubscribed / last subscribed, both subscribed, three occurrences, first or last occurrence empty; data field twice; timestamp split over several occurrences; unknown fields of every wire type; fields out of order; non-minimal varints in tags and length prefixes; a skipped bytes field containing the encoding of a channel field; PRNG mixtures), signed by the claimed sender under context+(channel a standard last-wins decode reports); ground truth = what the writer put last (self-tested against the protobuf codec). Non-trivial = at least one forged message was written and at least one authentic message from the hostile stream was handed to a V handler (so the stream was live and the reference signing context is right). Oracle = harness ground truth by construction: every handler callback and every copy V or W put on any wire must be a message that is authentic (signed by the claimed sender under context+channel), for the handler's / a subscribed channel, with the true sender reported (on the wire: claimed sender and inner channel of a forwarded copy equal those of the authentic message with that payload). Evaluated at exact quiescence. Family dyn (64 quick / 800 thorough scripts, c27dyn_test.go): V's subscriptions CHANGE while publishes for those channels arrive on one harness-driven stream H (observer stream N announces every channel): steps subscribe c / release the last subscription(s) of c / publish for c / exact quiescence, on a focus channel and two others; preludes: subscribed and released (or subscribed) before Execute starts, streams attached before or after Execute starts; segments run back to back: publishes around the release of the last subscription with another channel changing in the same evaluation tick, subscribe + release in one tick (never announced), release + re-subscribe (+ release), release with exact quiescence, PRNG walks; after every segment exact quiescence and 2-4 judged publishes. Ground truth = harness bookkeeping: a publish for c is judged iff an exact quiescent point Q (Execute running) precedes it and no change of c lies between Q and the first exact quiescent point after it; if c had no live subscription at Q the message must reach no handler and appear on no stream V writes; publishes inside a change window are not judged either way; non-trivial = at least one judged must-not publish and one judged publish for a live channel that was delivered.")
 	r.Assume("an authentic message with an out-of-range timestamp may be delivered or dropped (the property does not speak about timestamps)")
 	r.Assume("replays of authentic messages are authentic (de-duplication is C28)")
 	env, err := getEnv()
@@ -789,7 +790,25 @@ func TestC27(t *testing.T) {
 		scripts[i] = genC27(rng, i)
 		spliceNC(rngNC, scripts[i])
 	}
+	nDyn := r.N(64, 800)
+	rngDyn := r.Rand("c27-dyn")
+	dyn := make([]*c27dyn, nDyn)
+	for i := range dyn {
+		dyn[i] = genC27dyn(rngDyn, i)
+	}
 	jr := newJournal(r)
-	parallel(n, 16, func(i int) { runC27(r, env, pool, scripts[i], jr) })
+	only := os.Getenv("VERIF_C27_ONLY") // debugging aid: "dyn" or "static" (evidence then lacks cases)
+	var jobs []func()
+	for i := 0; i < n || i < nDyn; i++ {
+		if i < nDyn && only != "static" {
+			d := dyn[i]
+			jobs = append(jobs, func() { runC27dyn(r, env, pool, d, jr) })
+		}
+		if i < n && only != "dyn" {
+			sc := scripts[i]
+			jobs = append(jobs, func() { runC27(r, env, pool, sc, jr) })
+		}
+	}
+	parallel(len(jobs), 16, func(i int) { jobs[i]() })
 	r.Extra("goroutine_snapshots", env.W.Taken())
 }
